@@ -89,6 +89,11 @@ func TestBoundedB1(t *testing.T) {
 			}
 			if got, exp := modelDigest(m2, false), modelDigest(m, true); got != exp {
 				reps["C02"].violation("roundtrip-differs", id, "parse(print(m)) differs from normalise(m):\n got %s\nwant %s", got, exp)
+				if modelDigest(m, true) == modelDigest(m, false) {
+					// m is its own normal form, i.e. the model the parser returns for some DSL text (C01: DSL -> model -> DSL -> model
+					// is the identity): printing and parsing it must give it back
+					reps["C01"].violation("roundtrip-differs", id, "parse(print(m)) differs from the parser-shaped model m:\n got %s\nwant %s", got, exp)
+				}
 				continue
 			}
 			// C01: the parsed model printed again - directly and through JSON - is byte-stable
